@@ -77,7 +77,7 @@ TREE_CONFIGS = {
         tree_cfg("catalog", 4, 2, 3, ["Rotate", "MediaBox"], cat=["Rotate", "MediaBox"], root='{"Pages", "Page"}', need=NOSEL),
         tree_cfg("select-flat", 8, 7, 7, [], root='{"Pages"}', kinds='{"Page"}', back=False, pn="<- PN_Sub6",
                  mp="{0, 1, 2, 3, 4, 5, 6, 7, 8}", need=SEL_ACTIONS),
-        tree_cfg("select-tree", 5, 3, 4, ["CropBox"], pn="<- PN_Sub5", mp="{0, 1, 2, 3, 4, 5}"),
+        tree_cfg("select-tree", 5, 3, 4, [], pn="<- PN_Sub3", mp="{0, 1, 2, 3, 4}"),
     ],
 }
 COVERAGE_ON = ("shapes", "catalog", "select-flat", "select-tree", "three-attrs-chain")   # quick tier: vacuity guard
@@ -92,6 +92,9 @@ class _Timeout(Exception):
 
 
 class time_limit:
+    """a limit on the CPU time the process itself spends (ITIMER_VIRTUAL): the verdict "does not terminate" must not
+    depend on how busy the machine is"""
+
     def __init__(self, seconds):
         self.seconds = seconds
 
@@ -99,12 +102,12 @@ class time_limit:
         raise _Timeout()
 
     def __enter__(self):
-        self.old = signal.signal(signal.SIGALRM, self._fire)
-        signal.setitimer(signal.ITIMER_REAL, self.seconds)
+        self.old = signal.signal(signal.SIGVTALRM, self._fire)
+        signal.setitimer(signal.ITIMER_VIRTUAL, self.seconds)
 
     def __exit__(self, *a):
-        signal.setitimer(signal.ITIMER_REAL, 0)
-        signal.signal(signal.SIGALRM, self.old)
+        signal.setitimer(signal.ITIMER_VIRTUAL, 0)
+        signal.signal(signal.SIGVTALRM, self.old)
         return False
 
 
@@ -115,7 +118,7 @@ def guarded(site, fn, findings, detail):
         with time_limit(20):
             return True, fn()
     except _Timeout:
-        findings.append(("no-termination@" + site, "%s did not return within 20 s on %s" % (site, detail)))
+        findings.append(("no-termination@" + site, "%s used more than 20 s of CPU time without returning on %s" % (site, detail)))
     except RecursionError:
         findings.append(("error:RecursionError@" + site, "%s exhausted the stack on %s" % (site, detail)))
     except Exception as e:      # noqa: BLE001 - every exception is a verdict about the code under test here
@@ -624,7 +627,7 @@ def direction_a(ck, dev):
             if not recs:
                 raise MachineryError("PageTree config %s emitted no terminal state" % conf["name"])
             counts[conf["name"]] = len(recs)
-            drift += replay_trees(ck, conf, recs, geom, both_variants=(ck.tier == "thorough" or len(recs) < 4000))
+            drift += replay_trees(ck, conf, recs, geom, both_variants=(len(recs) < (40000 if ck.tier == "thorough" else 4000)))
     ck.extra["terminal_states_by_config"] = counts
     if ck.tier == "thorough":
         drift += simulate_four(ck, dev, geom)
